@@ -1,12 +1,12 @@
 """
-X04 (growth, not one of the twenty listed properties) - the three small command line programs
-AeRes, regroup (AeReg) and SR6 as machines of guarded early exits.
+X04 (growth, not one of the twenty listed properties) - the small command line programs
+BANE, AeRes, regroup (AeReg) and SR6 as machines of guarded early exits.
 
 model  : spec/ToolCLIs.tla (Outcome(tool, conf) = exit status + set of observable effects; TLC
          checks MachineIsOutcome, FailureDoesNothing, OneArithmeticMode, PsfHeaderWins on every
          configuration of every tool).
-binding: EVERY configuration (64 + 32 + 96) becomes argv for the real
-         AegeanTools.CLI.{AeRes,AeReg,SR6}.main on real files; the effects are recognised by
+binding: EVERY configuration (72 + 64 + 16 + 96) becomes argv for the real
+         AegeanTools.CLI.{BANE,AeRes,AeReg,SR6}.main on real files; the effects are recognised by
          content against the library called directly (residual = image -/+ model or masked;
          catalogue shapes = resize by ratio / to the psf header; island numbers = regroup_dbscan;
          compressed map with the given / the beam-derived factor; expanded map, blanked where
@@ -29,6 +29,8 @@ DIMS = {
               "add": [False, True], "mask": [False, True]},
     "regroup": {"input": ["missing", "ok"], "ratio": [False, True], "psfheader": [False, True],
                 "regroup": [False, True], "tables": [1, 2]},
+    "BANE": {"cite": [False, True], "image": ["none", "missing", "ok"], "noclobber": [False, True],
+             "existing": ["none", "one", "both"], "compress": [False, True]},
     "SR6": {"noargs": [False, True], "cite": [False, True], "infile": ["missing", "ok"], "expand": [False, True],
             "maskfile": ["none", "missing", "ok"], "factor": [False, True]},
 }
@@ -194,7 +196,46 @@ def obs_sr6(conf, d, tag):
     return rc, did
 
 
-OBS = {"AeRes": obs_aeres, "regroup": obs_regroup, "SR6": obs_sr6}
+def obs_bane(conf, d, tag):
+    from astropy.io import fits
+    from AegeanTools.CLI import BANE as cli
+    base = tag + "_bane"
+    fb, fr = base + "_bkg.fits", base + "_rms.fits"
+    sentinel = b"old contents"
+    if conf["existing"] in ("one", "both"):
+        with open(fb, "wb") as f:
+            f.write(sentinel)
+    if conf["existing"] == "both":
+        with open(fr, "wb") as f:
+            f.write(sentinel)
+    argv = []
+    if conf["image"] != "none":
+        argv.append(os.path.join(d, "im.fits") if conf["image"] == "ok" else os.path.join(d, "nofile.fits"))
+    argv += ["--out", base, "--cores", "1", "--stripes", "1", "--grid", "4", "4", "--box", "16", "16"]
+    if conf["cite"]:
+        argv.append("--cite")
+    if conf["noclobber"]:
+        argv.append("--noclobber")
+    if conf["compress"]:
+        argv.append("--compress")
+    rc = cli.main(argv)
+    did = []
+    shapes = set()
+    for f, name in ((fb, "bkg_written"), (fr, "rms_written")):
+        if os.path.exists(f):
+            with open(f, "rb") as fh:
+                new = fh.read(len(sentinel)) != sentinel
+            if new:
+                did.append(name)
+                hd = fits.getheader(f)
+                shapes.add("compressed_maps" if "BN_CFAC" in hd else
+                           "full_size_maps" if (hd["NAXIS2"], hd["NAXIS1"]) == (48, 56) else "maps_of_another_size")
+            os.remove(f)
+    did += sorted(shapes)
+    return rc, did
+
+
+OBS = {"BANE": obs_bane, "AeRes": obs_aeres, "regroup": obs_regroup, "SR6": obs_sr6}
 
 
 def observe(args):
@@ -253,7 +294,7 @@ def run(ctx):
         if rej != {"st-rc", "st-less", "st-more"}:
             raise common.MachineryError("ToolCLIs_Trace self-test failed: %r" % rej)
     ctx.count(evaluations=len(recs), nontrivial=len(recs), traces=len(recs))
-    ctx.cov["rule"] = "one real CLI run per configuration of ToolCLIs!Confs (AeRes 64, regroup 32, SR6 96): exhaustive"
+    ctx.cov["rule"] = "one real CLI run per configuration of ToolCLIs!Confs (BANE 72, AeRes 64, regroup 16, SR6 96): exhaustive"
     ctx.cov["exhaustive"] = True
     ctx.cov["outcomes_seen"] = sorted({"%s rc=%d did=%s" % (r["tool"], r["rc"], ",".join(sorted(r["did"]))) for r in recs})
     ctx.sample({k: recs[-1][k] for k in ("id", "tool", "conf", "rc", "did")})
